@@ -4,7 +4,8 @@ C01 — executable model of the forward engine's condition evaluation and assign
   src/expression.rs   evaluate_expression, find_operator, apply_operator
   src/engine/facts.rs get, get_nested, set, set_nested, set_nested_in_value
   src/engine/engine.rs evaluate_conditions, evaluate_single_condition,
-                      evaluate_arithmetic_condition, execute_action (Set, Append), one pass of execute
+                      evaluate_arithmetic_condition, execute_action (Set, Append), one pass of execute,
+                      the cycle loop of execute (`cycles`)
 Strings are `List Char` (the code is char/byte indexed on ASCII input; multibyte input is C05's subject).
 Floats are abstract: everything is parametric in `FloatOps F`; no definition or theorem looks inside `F`.
 -/
@@ -536,5 +537,22 @@ def pass (ops : FloatOps F) : Facts F → List (Rule F) → PassResult F
       | (f', none) =>
         let p := pass ops f' rs
         { p with firings := ⟨r.name, f'⟩ :: p.firings, evaluated := p.evaluated + 1, fired := p.fired + 1 }
+
+/-- sequencing of two stretches of one `execute` call: firings and counters accumulate, the later
+stretch decides the final facts and the error -/
+def PassResult.andThen (p q : PassResult F) : PassResult F :=
+  { firings := p.firings ++ q.firings, final := q.final, evaluated := p.evaluated + q.evaluated,
+    fired := p.fired + q.fired, error := q.error }
+
+/-- the `for cycle in 0..max_cycles` loop of `execute_at_time` / `execute_with_callback` (rules without
+attributes): one pass per cycle on the facts the previous cycle left, until a cycle fires no rule
+(`if !any_rule_fired { break }`), an action or condition returns `Err` (`?`), or `max_cycles` passes
+were made. Nothing but the facts travels from one cycle — or one `execute` call — to the next. -/
+def cycles (ops : FloatOps F) : Nat → Facts F → List (Rule F) → PassResult F
+  | 0, f, _ => { firings := [], final := f, evaluated := 0, fired := 0, error := none }
+  | n + 1, f, rs =>
+    let p := pass ops f rs
+    if p.error.isSome || p.fired == 0 then p
+    else p.andThen (cycles ops n p.final rs)
 
 end C01
